@@ -64,7 +64,7 @@ def _run_case(case):
                "cellsok": bool(cells_ok(g)), "ushape": list(map(int, u.data_shape)),
                "upoints": pts_list(u.data_points), "ucellsok": bool(cells_ok(u))}
     elif what == "memo":
-        g = make_grid(case["L"])
+        g = other = make_grid(case["L"])
         res = []
         for op in case["ops"]:
             if op == "shape":
@@ -74,7 +74,10 @@ def _run_case(case):
             elif op == "npoints":
                 res.append([int(len(g.data_points))])
             elif op == "copy":
-                g = g.copy()
+                other, g = g, g.copy()
+                res.append([])
+            elif op == "swap":
+                other, g = g, other
                 res.append([])
             else:
                 g.data_location = "CELLS" if op == "cells" else "POINTS"
